@@ -26,10 +26,10 @@ TRUSTED = ['PyVC executor (DESIGN 2.3), z3 5.1.0 / cvc5 (string/regex queries of
            'json_getval(render(v)) == v for JSON values and json_getval(s) == s for text that is not JSON (T4)', 'MQ.LOG_MAP is read from the real class']
 ASSUMPTIONS = ['atoms (topic names, option names, addresses, values) contain no separator characters of the configuration grammar and no edge whitespace; option names match [a-zA-Z_]\\w*',
                'list lengths 0..3 for topic mappings / options / sources (entries symbolic)',
-               'decided deductively: the two parsers, the base Filter class, VideoIn, ImageIn, VideoOut, ImageOut (1..2 entries with topic / flag / no-flag / name=json options, text vs list of strings vs list of records) and Recorder (output options, 0..2 rules); Util, MQTTOut, REST, Webvis are covered by the bounded native check only (labelled bounded)',
+               'decided deductively: the two parsers, the base Filter class, VideoIn, ImageIn, VideoOut, ImageOut (1..2 entries with topic / flag / no-flag / name=json options, text vs list of strings vs list of records), Recorder (output options, 0..2 rules) and Util (0..2 parameterless transforms with topic lists, log); Util size/box transforms, MQTTOut, REST, Webvis are covered by the bounded native check only (labelled bounded)',
                'endpoint units: is_video_* / is_file / parse_segtime / dict_without / once by assumed contracts; configuration classes (adict subclasses) are records tagged with their class',
                'REST endpoint paths starting with "//" are outside the documented grammar (stripping one leading "/" per pass is not idempotent there)']
-UNDECIDED_CLAUSES = ['idempotence and text==structured form of Util, MQTTOut, REST, Webvis: bounded native check only; unknown-option handling of VideoOut (moved to params) / ImageOut (dropped) is not in the shapes']
+UNDECIDED_CLAUSES = ['idempotence and text==structured form of MQTTOut, REST, Webvis and of the size/box transforms of Util: bounded native check only; unknown-option handling of VideoOut (moved to params) / ImageOut (dropped) is not in the shapes']
 EXPLANATION = 'Real parsers and the real base normalize_config executed on rope-shaped inputs; results compared structurally with symbolic atoms.'
 
 
@@ -700,6 +700,100 @@ class RecorderNormalizeUnit(Unit):
         return native_bounded(classes=('Recorder',))
 
 
+class UtilNormalizeUnit(Unit):
+    """the real Util.normalize_config for parameterless transforms with topic lists and the log option: idempotent; comma-text form == list of strings == list of records.
+    The size / box transforms (regular expressions with groups) are outside these shapes (bounded native check only)."""
+    name = 'Util.normalize_config (parameterless xforms, log): idempotence and text == structured'
+    RELP = FDIR + 'util.py'
+    targets = (f'{FDIR}util.py::Util.normalize_config',)
+    required_covers = ('normalised twice',)
+    bounded = {'xforms': '0..2 parameterless transforms with 0..2 topics each'}
+    mutants = (
+        ('Util: topics of a text transform dropped', f'{FDIR}util.py::Util.normalize_config', 'xform.topics = topics', 'pass', 'C11.text_equals_struct'),
+        ('Util: transforms appended twice', f'{FDIR}util.py::Util.normalize_config', '                new_xforms.append(xform)\n', '                new_xforms.append(xform)\n                new_xforms.append(xform)\n', 'C11.'),
+    )
+    ACTIONS = ('flipx', 'rotcw', 'fmtgray')
+
+    def shapes(self, tier):
+        out = []
+        for n in (0, 1, 2):
+            for nts in itertools.product((0, 1, 2), repeat=n):
+                for log in (None, 'pretty', True, 'none'):
+                    if tier == 'quick' and n == 2 and log not in (None, 'pretty'):
+                        continue
+                    for ws in (False, True):
+                        out.append((n, nts, log, ws))
+        return out
+
+    def build(self, ex, shape, form):
+        n, nts, log, ws = shape
+        sp = ' ' if ws else ''
+        texts, recs = [], []
+        for i in range(n):
+            act = self.ACTIONS[i % len(self.ACTIONS)]
+            tops = [Atom(f'x{i}t{j}', 'name') for j in range(nts[i])]
+            texts.append(rope(act, *[x for t in tops for x in (sp + ';' + sp, t)]))
+            rec = {'action': act}
+            if tops:
+                rec['topics'] = [rope(t) for t in tops]
+            recs.append(rec)
+        kv = {'id': rope(Atom('the_id', 'name')), 'sources': [rope(Atom('src_addr', 'addr'))], 'outputs': [rope(Atom('out_addr', 'addr'))]}
+        if log is not None:
+            kv['log'] = log
+        if n:
+            if form == 'text':
+                kv['xforms'] = R.simplify(rope(*[x for i, t in enumerate(texts) for x in ((',' + sp if i else ''), t)]))
+            elif form == 'strings':
+                kv['xforms'] = list(texts)
+            else:
+                kv['xforms'] = [adict(**r) for r in recs]
+        o = adict(**kv)
+        o.f['_kind'] = 'dict'
+        return o
+
+    def run(self, shape, dec):
+        rel = self.RELP
+        ex = new_exec(dec, [FILTER, UTILS, rel])
+        setup(ex)
+        register_class(ex, rel, 'Util', bases=('Filter',))
+        ex.models['cfgcls'] = CfgCls
+        ex.isinstance_hook = cfg_isinstance
+        anc = {'UtilConfig': ('FilterConfig',)}
+        xf_cls = Obj('cfgcls', kind='UtilConfig.XForm', nested={}, ancestors_of=anc)
+        cfg_cls = Obj('cfgcls', kind='UtilConfig', nested={'XForm': xf_cls}, ancestors_of=anc)
+        fc_cls = Obj('cfgcls', kind='FilterConfig', nested={}, ancestors_of=anc)
+        mq_mod = extract.load('openfilter/filter_runtime/mq.py')
+        log_map = eval(compile(ast.Expression(mq_mod.find('MQ.<assign LOG_MAP>')), '<LOG_MAP>', 'eval'))
+        for g in ex.modules.values():
+            g.update(FilterConfig=fc_cls, UtilConfig=cfg_cls, split_commas_maybe=closure(UTILS, 'split_commas_maybe'), MQ=Obj('MQcls', LOG_MAP=log_map), Filter=ClassRef('Filter'),
+                     parse_time_interval=Native(lambda ex_, s: 90, 'parse_time_interval'), parse_date_and_or_time=Native(lambda ex_, s, *a: Obj('dt'), 'parse_date_and_or_time'), logger=None)
+        norm = lambda c: ex.call_value(ex.getattr(ClassRef('Util'), 'normalize_config'), [c], {})
+        ex.replay_info = dict(shape=[list(x) if isinstance(x, tuple) else x for x in shape], cls='Util')
+        try:
+            for i in range(shape[0]):       # precondition: the topics listed for one transform are pairwise different
+                for a, b in itertools.combinations([z3.String(f'x{i}t{j}') for j in range(shape[1][i])], 2):
+                    ex.assume(a != b)
+            n1 = norm(self.build(ex, shape, 'text'))
+            n2 = norm(n1)
+            ns = norm(self.build(ex, shape, 'strings'))
+            nr = norm(self.build(ex, shape, 'records'))
+        except ExcSig as e:
+            ex.outcome = f'raise {e.cls}'
+            ex.oblige(f'C11.no_failure: Util.normalize_config rejects a valid configuration ({e.origin})', False)
+            return ex
+        ex.outcome = 'return'
+        ex.cover('normalised twice')
+        ex.oblige('C11.idempotent(Util): normalising an already normalised configuration returns an equal configuration', zb(ex.eq(n2, n1)))
+        ex.oblige('C11.text_equals_struct(Util): the comma-text form normalises to the same result as the list of strings', zb(ex.eq(n1, ns)))
+        ex.oblige('C11.text_equals_struct(Util): ... and as the list of records', zb(ex.eq(n1, nr)))
+        xf = n1.f['kv'].get('xforms')
+        ex.oblige('C11.normal_form(Util): one record per transform, in order', (xf is None and shape[0] == 0) or (isinstance(xf, list) and len(xf) == shape[0]))
+        return ex
+
+    def replay(self, failure):
+        return native_bounded(classes=('Util',))
+
+
 def _mk_fc(ex, d):
     if isinstance(d, Obj) and d.cls == 'adict':
         d = d.f['kv']
@@ -778,4 +872,4 @@ def extra_checks(tier, seed, pool):
     return out
 
 
-UNITS = [ParserInverseUnit(), BaseNormalizeUnit()] + [EndpointNormalizeUnit(c) for c in ('VideoIn', 'ImageIn', 'VideoOut', 'ImageOut')] + [RecorderNormalizeUnit()]
+UNITS = [ParserInverseUnit(), BaseNormalizeUnit()] + [EndpointNormalizeUnit(c) for c in ('VideoIn', 'ImageIn', 'VideoOut', 'ImageOut')] + [RecorderNormalizeUnit(), UtilNormalizeUnit()]
